@@ -180,7 +180,28 @@ func (d *definition) Join(causes ...error) error {
 	if cause == nil {
 		return nil
 	}
-	return newError(d, cause, cause.Error(), true, callersSkip)
+	joined := true
+	if single, ok := singleNonNil(causes); ok {
+		// errors.Join may return a lone cause that already implements
+		// Unwrap() []error as is (Go 1.25+). Wrap the single cause directly
+		// so that Unwrap does not flatten it away.
+		cause, joined = single, false
+	}
+	return newError(d, cause, cause.Error(), joined, callersSkip)
+}
+
+func singleNonNil(errs []error) (error, bool) {
+	var single error
+	for _, err := range errs {
+		if err == nil {
+			continue
+		}
+		if single != nil {
+			return nil, false
+		}
+		single = err
+	}
+	return single, single != nil
 }
 
 func (d *definition) Recover(fn func() error) error {
